@@ -23,3 +23,5 @@ go test -vet=off -count=1 -run 'Seed|seed' ./$DEMODIR 2>&1 | grep -v "^{" | tail
 cd /; git -C /repo worktree remove --force $W
 echo "== check $PROP against the change"
 git -C /repo apply $OUT/patch.diff && (cd /verif && ./check $PROP quick 2>&1 | grep -v "^KNOWN" | cut -c1-330 | tail -12); git -C /repo checkout -- . ; git -C /repo status --short | head -3
+# the evidence written by the run against the seeded tree must not stay: restore the committed record
+(cd /verif && git checkout -- evidence/$PROP.json 2>/dev/null; true)
